@@ -325,14 +325,19 @@ fn violation_strategy() -> impl Strategy<Value = Input> {
                             class = "violation/literal-above-declared".into();
                         }
                         1 if n > 0 => {
+                            // (the variable count may be unspecified while the other counts are not)
+                            let max_var = if pick % 3 == 0 { 0 } else { max_var };
                             d.header = Some((max_var, n + 1, third));
                             class = "violation/one-clause-missing".into();
                         }
                         2 if n > 1 => {
+                            let max_var = if pick % 3 == 0 { 0 } else { max_var };
                             d.header = Some((max_var, n - 1, third));
                             class = "violation/one-clause-extra".into();
                         }
                         3 if d.kind == ParserId::Gcnf && n > 0 && max_group < u64::MAX - 1 => {
+                            let max_var = if pick % 3 == 0 { 0 } else { max_var };
+                            let n = if pick % 5 == 0 { 0 } else { n };
                             d.header = Some((max_var, n, max_group.max(1)));
                             let i = (pick as usize * d.clauses.len()) >> 16;
                             d.clauses[i].0 = max_group.max(1) + 1;
